@@ -619,7 +619,8 @@ def repr_values(condition: Callable[..., bool], lambda_inspection: Optional[Cond
         variable_lookup = collect_variable_lookup(condition=condition, resolved_kwargs=condition_kwargs)
 
         recompute_visitor = icontract._recompute.Visitor(
-            variable_lookup=variable_lookup, code_names=_collect_code_names(condition=condition))
+            variable_lookup=variable_lookup, code_names=_collect_code_names(condition=condition),
+            qualname=getattr(condition, "__qualname__", None))
 
         recompute_visitor.visit(node=lambda_inspection.node.body)
         recomputed_values = recompute_visitor.recomputed_values
